@@ -5,7 +5,8 @@ use paseto_core::encodings::{Footer, Payload};
 use paseto_json::{Json, RegisteredClaims};
 use serde_json::{Value, json};
 
-const KEYS: [&str; 9] = ["iss", "sub", "aud", "exp", "nbf", "iat", "jti", "zz", "issx"];
+// unknown member names include near misses of the registered ones: longer, shorter, same prefix, same suffix, other case
+const KEYS: [&str; 14] = ["iss", "sub", "aud", "exp", "nbf", "iat", "jti", "zz", "issx", "isp", "su", "ISS", "exq", "ubs"];
 const STRS: [&str; 2] = ["alice", "bob"];
 const TSS: [&str; 2] = ["2024-01-01T00:00:00Z", "2039-12-31T23:59:59.999999999Z"];
 
@@ -265,7 +266,7 @@ fn observe_json_wrappers(rec: &mut Recorder, rng: &mut Prng) {
 
 pub fn run(rec: &mut Recorder, thorough: bool, seed: u64) {
     let mut rng = Prng::new(seed, "c14");
-    let all: Vec<usize> = (0..9).collect();
+    let all: Vec<usize> = (0..KEYS.len()).collect();
     let ms = all_members(&all);
     observe_decode(rec, &[]);
     for a in &ms {
